@@ -9,6 +9,7 @@ mod lex;
 mod term;
 mod tracker;
 mod util;
+mod vars;
 
 fn main() {
     let args: Vec<String> = std::env::args().skip(1).collect();
@@ -24,6 +25,7 @@ fn main() {
         "lex" => lex::main(rest),
         "tracker" => tracker::main(rest),
         "consume" => counted::main(rest),
+        "vars" => vars::main(rest),
         "tables" => fuzz::main_tables(rest),
         _ => {
             eprintln!("usage: recorder <expr> [options]");
